@@ -31,10 +31,10 @@ var shapes = []shape{
 	{"S5", "type TT struct{ arr [2]struct{ a Int } }", "var v TT; v.arr[0].a = 7; v.arr[1].a = 8; return v", "p.arr[1].a = 99", `return itoa(int64(v.arr[0].a)) + "," + itoa(int64(v.arr[1].a))`, "p.arr[0].a--", false},
 	{"A4", "type TT [2][2]Int", "return TT{{1, 2}, {3, 4}}", "p[1][0] = 99", `return itoa(int64(v[0][0])) + itoa(int64(v[0][1])) + "," + itoa(int64(v[1][0])) + itoa(int64(v[1][1]))`, "p[0] = [2]Int{-1, -2}", false},
 	{"S6", "type TT struct {\n\ta Int\n\tb string\n\tc float64\n\td [2]string\n\te int64\n}", `return TT{1, "b", 2.5, [2]string{"x", "y"}, 1 << 40}`, `p.d[1] = "M"`, `return itoa(int64(v.a)) + v.b + ftoa(v.c) + v.d[0] + v.d[1] + itoa(v.e)`, "p.e++", false},
-	{"S7", "type TT struct {\n\tp *Int\n\ta Int\n}", "x := new(Int); *x = 5; return TT{x, 7}", "p.a = 99", `return itoa(int64(*v.p)) + "," + itoa(int64(v.a))`, "*p.p = 55", false},
-	{"S8", "type TT struct {\n\ts []Int\n\ta [1]Int\n}", "return TT{[]Int{5}, [1]Int{7}}", "p.a[0] = 99", `return itoa(int64(v.s[0])) + "," + itoa(int64(v.a[0]))`, "p.s[0] = 55", true},
+	{"S7", "type TT struct {\n\tp *Int\n\ta Int\n}", "x := new(Int); *x = 5; return TT{x, 7}", "p.a = 99", `if v.p == nil { return "nil," + itoa(int64(v.a)) }; return itoa(int64(*v.p)) + "," + itoa(int64(v.a))`, "if p.p != nil { *p.p = 55 } else { p.a = -55 }", false},
+	{"S8", "type TT struct {\n\ts []Int\n\ta [1]Int\n}", "return TT{[]Int{5}, [1]Int{7}}", "p.a[0] = 99", `if len(v.s) == 0 { return "empty," + itoa(int64(v.a[0])) }; return itoa(int64(v.s[0])) + "," + itoa(int64(v.a[0]))`, "if len(p.s) > 0 { p.s[0] = 55 } else { p.a[0] = -55 }", true},
 	{"A5", "type TT [3]uint8", "return TT{1, 2, 3}", "p[2] = 99", `return itoa(int64(v[0])) + itoa(int64(v[1])) + "," + itoa(int64(v[2]))`, "p[0] = 200", false},
-	{"S9", "type In_S9 struct{ z [2]Int }\ntype TT struct {\n\ti interface{}\n\tn In_S9\n}", `return TT{"s", In_S9{[2]Int{7, 8}}}`, "p.n.z[1] = 99", `return v.i.(string) + itoa(int64(v.n.z[0])) + "," + itoa(int64(v.n.z[1]))`, `p.i = "M"`, false},
+	{"S9", "type In_S9 struct{ z [2]Int }\ntype TT struct {\n\ti interface{}\n\tn In_S9\n}", `return TT{"s", In_S9{[2]Int{7, 8}}}`, "p.n.z[1] = 99", `str, _ := v.i.(string); return str + itoa(int64(v.n.z[0])) + "," + itoa(int64(v.n.z[1]))`, `p.i = "M"`, false},
 	{"A6", "type TT [2]float64", "return TT{1.5, 2.5}", "p[1] = 99", `return ftoa(v[0]) + "," + ftoa(v[1])`, "p[0] = -p[0]", false},
 	{"S10", "type TT struct {\n\tc complex128\n\tu uint64\n\tf func() Int\n}", "return TT{complex(1, 2), 1 << 63, nil}", "p.u = 99", `return ftoa(real(v.c)) + ftoa(imag(v.c)) + "," + utoa(v.u)`, "p.c = complex(9, 9)", true},
 }
